@@ -24,14 +24,20 @@ Definition in_op (o : val) (k : string) : bool :=
 (* ---------- deepmerge (codegen-v2.ts:34-231) ---------- *)
 Definition is_not_prototype_key (k : string) : bool :=
   negb (String.eqb k "constructor" || String.eqb k "prototype" || String.eqb k proto_key).
+(* an object whose prototype was replaced by a Date / RegExp / typed array (obj_assign of the key __proto__) is `instanceof` that class *)
+Definition inherits_builtin (v : val) : bool :=
+  match v with
+  | VObj fs => match assoc proto_mark fs with Some (VDate _) | Some VRegExp | Some (VTyped _ _) => true | _ => false end
+  | _ => false
+  end.
 Definition is_mergeable_object (v : val) : bool :=
   match v with
-  | VArr _ | VObj _ | VMap _ | VSet _ => true
+  | VArr _ | VObj _ | VMap _ | VSet _ => negb (inherits_builtin v)
   | _ => false        (* primitives, null, functions, RegExp, Date, typed arrays *)
   end.
 Definition is_primitive (v : val) : bool := negb (is_object_type v) || match v with VNull => true | _ => false end.
 Definition is_primitive_or_builtin (v : val) : bool :=
-  is_primitive v || match v with VRegExp | VDate _ | VTyped _ _ => true | _ => false end.
+  is_primitive v || match v with VRegExp | VDate _ | VTyped _ _ => true | _ => false end || inherits_builtin v.
 
 Fixpoint clone (fuel : nat) (v : val) : res val :=
   match fuel with
@@ -40,6 +46,7 @@ Fixpoint clone (fuel : nat) (v : val) : res val :=
       match v with
       | VArr xs => do ys <- map_res (clone f) xs; Ok (VArr ys)
       | VObj _ | VMap _ | VSet _ =>
+          if inherits_builtin v then Ok v else
           do fs <- (fix go (ks : list string) (acc : list (string * val)) : res (list (string * val)) :=
                       match ks with
                       | [] => Ok acc
